@@ -1188,8 +1188,9 @@ func (c *Ctx) stateConfinement() {
 			default:
 				continue
 			}
-			// keyed by the enclosing declared function: closure ordinals shift when closures are added or removed
-			key := fmtf("%s|%s", c.name(topFn(site.Parent())), desc)
+			// keyed by the enclosing declared function (a private helper with a single calling function counts as part of
+			// that function): closure ordinals shift when closures are added or removed, helpers get extracted
+			key := fmtf("%s|%s", c.name(c.ownerFn(site.Parent())), desc)
 			if unsafe != "" && ownStateGuard(site) {
 				R.Pass("R19.1", key, P.Pos(site.Pos()), "guarded by the own-state test")
 				continue
